@@ -140,7 +140,18 @@ class Model:
             cache["inl"] = Inliner(self.prog, lambda caller, callee: default_policy(caller, callee) and callee.path not in tw, max_depth=10)
         if f.path not in cache:
             self.ctx.analysed_fns.add(f.path)
-            cache[f.path] = FnQ(self.w, cache["inl"].inlined(f))
+            cur = FnQ(self.w, cache["inl"].inlined(f))
+            # normalise: branches on constants (a shared helper inlined with `Side::Bid` passed in) are cut for good, and
+            # tests of values joined from several predecessors are threaded
+            for _round in range(40):
+                dead = {(b, t) for (b, t) in cur.cfg.dead_edges() if cur.body.blocks[t].term is None or cur.body.blocks[t].term.k != "unreachable"}
+                if dead:
+                    cur = self._pruned(cur, dead)
+                    continue
+                cur, changed = self._threaded(cur)
+                if not changed:
+                    break
+            cache[f.path] = cur
         return cache[f.path]
 
     # ------------------------------------------------------------------ side-specialised views
@@ -152,6 +163,8 @@ class Model:
             if o[0] == "field" and o[2] == "order":
                 return o[1]
             return ("order", o)
+        if subj[0] == "param" and subj[2] == "side":
+            return subj       # the side parameter of a creating entry point: the order being created is on that side
         if subj[0] == "field" and subj[2] == "0":
             k = subj[1]
             if k[0] == "field" and k[2] == "key":
